@@ -32,6 +32,7 @@ std::pair<int, int> retp(int id, int snap, const void* a1) { log_clause('R', id,
 std::pair<int, int>& retpr(int id, int snap, std::pair<int, int>& target, const void* a1) { log_clause('R', id, 0, snap, a1, &target); point(); return target; }
 std::runtime_error thr_std(int id, int snap) { log_clause('R', id, 0, snap, nullptr, nullptr); point(); return std::runtime_error("inst " + std::to_string(id)); }
 sim_error& thr_var(int id, int snap, sim_error& e) { log_clause('R', id, 0, snap, nullptr, &e); point(); return e; }
+const char* thr_cstr(int id, int snap) { log_clause('R', id, 0, snap, nullptr, nullptr); point(); return "a C string"; }
 int thr_int(int id, int snap) { log_clause('R', id, 0, snap, nullptr, nullptr); point(); return id; }
 
 void ExecImpl::clause_log(char kind, int id, int k, long v, const void* a1, const void* a2) {
@@ -262,7 +263,7 @@ void ExecImpl::step(const Op& op, bool nested) {
   X(p_saturated_nomatch) X(p_seq_mismatch) X(p_passed_entry) X(p_release_unfulfilled) X(p_release_named) \
   X(p_moved_mock_call) X(p_seq_destroy_nonempty) X(p_monitor_ok) X(p_monitor_unexpected) X(p_monitor_still_alive) \
   X(p_monitor_seq_violation) X(p_with_rejects) X(p_lr_differs) X(p_trace_records) X(p_ok_reports) X(p_rt_inverted) \
-  X(p_multi_monitor) X(p_assign_watched) X(p_seq_taken_over) X(p_watched_mock_death) X(p_ok_reporter_op) X(p_call_in_handler) X(p_call_in_unwinding) X(p_tracer_op) X(flag_observations)
+  X(p_multi_monitor) X(p_assign_watched) X(p_seq_taken_over) X(p_watched_mock_death) X(p_ok_reporter_op) X(p_call_in_handler) X(p_call_in_unwinding) X(p_tracer_op) X(p_seq_handed_back) X(flag_observations)
 
 void Stats::add(const Stats& o) {
   for (int i = 0; i < OP_KIND_COUNT; ++i) ops[i] += o.ops[i];
